@@ -179,6 +179,19 @@ func HarnessCLIFailures() {
 			"wrongly-typed-keyword-in-definitions", "wrongly-typed-keyword-in-$defs", "wrongly-typed-keyword-in-a-property", "wrongly-typed-keyword-in-items"}
 		k := zzvrt.Choice(len(bads))
 		fault = names[k]
+		// the bad file's $id: its own, the SAME as the good file's (two inputs may declare one
+		// id: their declarations share an output), or none
+		if k >= 2 {
+			text := []string{"", "", zzBadType, zzBadRef, zzBadFileRef, zzBadDefs, zzBadDefs2, zzBadProps, zzBadItems}[k]
+			switch zzvrt.Choice(3) {
+			case 1:
+				fault += "/same-id-as-the-good-file"
+				zzvrt.VFileData(zzIn+bads[k], strings.Replace(text, "https://example.com/bad", "https://example.com/widget#", 1))
+			case 2:
+				fault += "/no-id"
+				zzvrt.VFileData(zzIn+bads[k], strings.Replace(text, `"$id": "https://example.com/bad", `, "", 1))
+			}
+		}
 		switch zzvrt.Choice(3) {
 		case 0:
 			args = []string{zzIn + bads[k]}
